@@ -1,6 +1,144 @@
 import PdeVerif.Json
+import PdeVerif.Model.BC
+import PdeVerif.Model.BCParse
 namespace PdeVerif.Drv.C02
-open Lean PdeVerif
+open Lean PdeVerif PdeVerif.BC
 
-def handlers : List (String × Handler) := []
+/-- row-major flat index of a multi-index (0-based entries) in an array of the given shape;
+`none` if out of range -/
+def flatIdx (shape : List Nat) (idx : List Int) : Option Nat :=
+  if shape.length != idx.length then none else
+  (shape.zip idx).foldl (fun (acc : Option Nat) (p : Nat × Int) => match acc with
+    | none => none
+    | some k => if 0 ≤ p.2 && p.2 < (p.1 : Int) then some (k * p.1 + p.2.toNat) else none) (some 0)
+
+/-- all multi-indices of a shape in row-major order -/
+def allIdx : List Nat → List (List Int)
+  | [] => [[]]
+  | n :: rest => (List.range n).flatMap (fun (i : Nat) => (allIdx rest).map (fun r => (i : Int) :: r))
+
+def arrFn (shape : List Nat) (data : Array Rat) (idx : List Int) : Rat :=
+  match flatIdx shape idx with
+  | some k => data.getD k 0
+  | none => 0
+
+/-- value arrays are indexed by (components ++ face position) with 1-based spatial entries -/
+def valFn (vshape : List Nat) (ncomp : Nat) (data : Array Rat) (vi : List Int) : Rat :=
+  let shifted := (vi.take ncomp) ++ (vi.drop ncomp).map (· - 1)
+  arrFn vshape data shifted
+
+def getArr (j : Json) (k : String) : Except String (Array Rat) := do
+  let l ← fldQs j k
+  pure l.toArray
+
+def parseCond (j : Json) (ncomp : Nat) : Except String (Cond Rat) := do
+  let kind ← fldS j "kind"
+  let vshape ← (do match fldOpt j "vshape" with | some v => getL getN v | none => pure [])
+  let get (k : String) : Except String (List Int → Rat) := do
+    let d ← getArr j k
+    pure (valFn vshape ncomp d)
+  match kind with
+  | "dirichlet" => do pure (.dirichlet (← get "v"))
+  | "neumann" => do pure (.neumann (← get "v"))
+  | "mixed" => do pure (.mixed (← get "v") (← get "c"))
+  | "mixedInf" => pure .mixedInf
+  | "curvature" => do pure (.curvature (← get "v"))
+  | "periodic" => pure (.periodic false)
+  | "antiperiodic" => pure (.periodic true)
+  | "exprValue" => do pure (.exprValue (← get "v"))
+  | "exprDerivative" => do pure (.exprDerivative (← get "v"))
+  | "exprMixed" => do pure (.exprMixed (← get "v") (← get "c"))
+  | _ => throw s!"unknown cond {kind}"
+
+/-- {"shape":[..], "rank":r, "dim":d, "data":[..] (full array, shape (d,)*r ++ (N+2..)),
+    "faces":[{"axis","upper","normal","dx","cond":{...}}]} -> new full array -/
+def ghost (j : Json) : Except String Json := do
+  let shape ← fldNs j "shape"
+  let rank ← fldN j "rank"
+  let dim ← fldN j "dim"
+  let data ← getArr j "data"
+  let fshape := List.replicate rank dim ++ shape.map (· + 2)
+  let a0 : List Int → Rat := arrFn fshape data
+  let facesJ ← (do getL pure (← fld j "faces"))
+  let faces ← facesJ.mapM (fun fj => do
+    let axis ← fldN fj "axis"
+    let upper ← fldB fj "upper"
+    let normal ← fldB fj "normal"
+    let dx ← fldQ fj "dx"
+    let ncomp := if normal then rank - 1 else rank
+    let c ← parseCond (← fld fj "cond") ncomp
+    let f : Face := { shape := shape, rank := rank, axis := axis,
+                      side := if upper then .upper else .lower, normal := normal }
+    pure (f, dx, c))
+  let a1 := setGhostAll faces a0
+  pure (jQs ((allIdx fshape).map a1))
+
+/-- virtual point data of one condition: {"kind", "dx", "v", "c"} -> [const, factor(, factor2)] -/
+def vpdata (j : Json) : Except String Json := do
+  let kind ← fldS j "kind"
+  let dx ← fldQ j "dx"
+  let v ← (match fldOpt j "v" with | some x => getQ x | none => pure 0)
+  let c ← (match fldOpt j "c" with | some x => getQ x | none => pure 0)
+  match kind with
+  | "dirichlet" => let r := vpDirichlet v; pure (jQs [r.1, r.2])
+  | "neumann" => let r := vpNeumann dx v; pure (jQs [r.1, r.2])
+  | "mixed" => let r := vpMixed dx v c; pure (jQs [r.1, r.2])
+  | "curvature" => let r := vpCurvature dx v; pure (jQs [r.1, r.2.1, r.2.2])
+  | "periodic" => let r : Rat × Rat := vpPeriodic false; pure (jQs [r.1, r.2])
+  | "antiperiodic" => let r : Rat × Rat := vpPeriodic true; pure (jQs [r.1, r.2])
+  | _ => throw s!"unknown kind {kind}"
+
+open PdeVerif.BCParse in
+def parseSpec (j : Json) : Except String Spec := do
+  let t ← fldS j "t"
+  match t with
+  | "periodic" => pure .periodic
+  | "antiperiodic" => pure .antiperiodic
+  | "auto" => do pure (.auto (← fldS j "name") (← fldN j "vid"))
+  | "named" => do pure (.named (← fldS j "name") (← fldN j "vid"))
+  | _ => throw s!"bad spec {t}"
+
+open PdeVerif.BCParse in
+def kindName : Kind → String
+  | .user => "UserBC" | .exprVirtual => "ExpressionBC" | .exprValue => "ExpressionValueBC"
+  | .exprDerivative => "ExpressionDerivativeBC" | .exprMixed => "ExpressionMixedBC"
+  | .dirichlet => "DirichletBC" | .neumann => "NeumannBC" | .mixed => "MixedBC"
+  | .curvature => "CurvatureBC" | .normalDirichlet => "NormalDirichletBC"
+  | .normalNeumann => "NormalNeumannBC" | .normalMixed => "NormalMixedBC"
+  | .normalCurvature => "NormalCurvatureBC"
+
+open PdeVerif.BCParse in
+/-- {"axes":[..], "alt":[[pattern, repl]..], "sides":[[name, axis, upper]..], "periodic":[..],
+    "top": {"all": spec} | {"dict": [[key, spec]..]}} -/
+def parseH (j : Json) : Except String Json := do
+  let axes ← (do getL getS (← fld j "axes"))
+  let alt ← (do getL (fun p => do
+      let a ← p.getArr?; pure ((← getS a[0]!), (← getS a[1]!))) (← fld j "alt"))
+  let sides ← (do getL (fun p => do
+      let a ← p.getArr?; pure ((← getS a[0]!), (← getN a[1]!), (← getB a[2]!))) (← fld j "sides"))
+  let per ← (do getL getB (← fld j "periodic"))
+  let g : GridNames := ⟨axes, alt, sides, per⟩
+  let topJ ← fld j "top"
+  let top ← (match fldOpt topJ "all" with
+    | some s => do pure (Top.all (← parseSpec s))
+    | none => do
+      let l ← getL (fun p => do
+        let a ← p.getArr?; pure ((← getS a[0]!), (← parseSpec a[1]!))) (← fld topJ "dict")
+      pure (Top.dict l))
+  match parse g top with
+  | .error .bcdata => pure (Json.str "error:bcdata")
+  | .error .periodicity => pure (Json.str "error:periodicity")
+  | .error .key => pure (Json.str "error:key")
+  | .ok r => pure (Json.arr (r.map (fun ab => match ab with
+      | .periodic => Json.str "periodic"
+      | .antiperiodic => Json.str "anti-periodic"
+      | .pair l h => Json.arr #[Json.arr #[Json.str (kindName l.1), toJson l.2],
+                               Json.arr #[Json.str (kindName h.1), toJson h.2]])).toArray)
+
+open PdeVerif.BCParse in
+def aliases (_ : Json) : Except String Json :=
+  pure (Json.arr (aliasTable.map (fun p => Json.arr #[Json.str p.1, Json.str (kindName p.2)])).toArray)
+
+def handlers : List (String × Handler) :=
+  [("c02.ghost", ghost), ("c02.vpdata", vpdata), ("c02.parse", parseH), ("c02.aliases", aliases)]
 end PdeVerif.Drv.C02
